@@ -14,7 +14,7 @@ RULE = ("dist: L0 on the real collectors (CalcProviderDistributionAmount, Collec
         "Spec.C18.recipientsOK; ammdir D23 pays the buckets through the REAL x/epochs BeginBlocker (rewards epoch hour / day / week, block times "
         "stepping over hour, day and week boundaries where several epochs end in one block): whether the rewards epoch is due is read from the "
         "stored epoch infos, and the same epoch predicates are judged; the wallet-mode shares are also judged with eligibility from the harness's own ledger "
-        "of accepted creates / adds / removals (epochSharesByLedgerOK; D24: two epochs closer than the lock period, pool mode then wallet mode); non-trivial = a distinct collector call that returned amounts")
+        "of accepted creates / adds / removals (epochSharesByLedgerOK; D24: two epochs closer than the lock period, pool mode then wallet mode); D25: 201 pools (more than any page size) in one LPPD block and one depth-reward block, all records read from the raw store; non-trivial = a distinct collector call that returned amounts")
 TRUSTED_BASE = [
     "Lean 4.33.0 kernel; axioms propext, Classical.choice, Quot.sound (audited per theorem on every run)",
     "hand-written Lean model of the clp collectors and hooks, tied by differential execution (L0 and L1)",
